@@ -658,8 +658,8 @@ func (comp) NewCase(h []string) kit.Runner {
 func (r *runner) Close() { os.RemoveAll(r.dir) }
 
 // yamlTag says how yaml.v3 reads the text s when it is written as a block sequence item without
-// any quoting (`- s`): str (the same string), int, bool, null, float, other (a different string
-// or a collection), err (not YAML).
+// any quoting (`- s`): str (the same string), "strx <enc t>" (a different string t), int, bool,
+// null, float, other (a collection), err (not YAML).
 func yamlTag(s string) string {
 	var out []any
 	if err := yaml.Unmarshal([]byte("- "+s+"\n"), &out); err != nil {
@@ -673,7 +673,7 @@ func yamlTag(s string) string {
 		if x == s {
 			return "str"
 		}
-		return "other"
+		return "strx " + kit.Enc(x) // a different string: a plain scalar loses its edge blanks
 	case int, int64, uint64:
 		return "int"
 	case bool:
